@@ -25,6 +25,7 @@ import (
 	"sync"
 	"time"
 
+	"github.com/uber-go/tally/v4/internal/verifhook"
 	"go.uber.org/atomic"
 )
 
@@ -249,14 +250,17 @@ func (s *scope) cachedReport() {
 
 // reportLoop is used by the root scope for periodic reporting
 func (s *scope) reportLoop(interval time.Duration) {
+	verifhook.Yield("loop.start")
 	ticker := time.NewTicker(interval)
 	defer ticker.Stop()
 
 	for {
 		select {
 		case <-ticker.C:
+			verifhook.Yield("loop.tick")
 			s.reportLoopRun()
 		case <-s.done:
+			verifhook.Yield("loop.exit")
 			return
 		}
 	}
@@ -267,6 +271,7 @@ func (s *scope) reportLoopRun() {
 		return
 	}
 
+	verifhook.Yield("loop.run.post-closed-check")
 	s.reportRegistry()
 }
 
@@ -286,6 +291,7 @@ func (s *scope) Counter(name string) Counter {
 		return c
 	}
 
+	verifhook.Yield("scope.counter.pre-lock")
 	s.cm.Lock()
 	defer s.cm.Unlock()
 
@@ -322,6 +328,7 @@ func (s *scope) Gauge(name string) Gauge {
 		return g
 	}
 
+	verifhook.Yield("scope.gauge.pre-lock")
 	s.gm.Lock()
 	defer s.gm.Unlock()
 
@@ -357,6 +364,7 @@ func (s *scope) Timer(name string) Timer {
 		return t
 	}
 
+	verifhook.Yield("scope.timer.pre-lock")
 	s.tm.Lock()
 	defer s.tm.Unlock()
 
@@ -402,6 +410,7 @@ func (s *scope) Histogram(name string, b Buckets) Histogram {
 		htype = durationHistogramType
 	}
 
+	verifhook.Yield("scope.histogram.pre-lock")
 	s.hm.Lock()
 	defer s.hm.Unlock()
 
@@ -525,10 +534,13 @@ func (s *scope) Close() error {
 		return nil
 	}
 
+	verifhook.Yield("close.post-cas")
 	close(s.done)
+	verifhook.Yield("close.post-done")
 
 	if s.root {
 		s.reportRegistry()
+		verifhook.Yield("close.pre-reporter-close")
 		if closer, ok := s.baseReporter.(io.Closer); ok {
 			return closer.Close()
 		}
